@@ -153,6 +153,28 @@ def lexeme_obligations(ck: Check):
             T.number(lexeme)
         except Exception as e:
             ck.counterexample(f'number-lexeme:{type(e).__name__}', f'number({lexeme[:20]!r}...) raises {type(e).__name__}', {'kind': 'lexeme', 'lexeme': lexeme[:40]})
+    # every NUMBER lexeme is also a legal time bound, in both units (huge, tiny, many digits)
+    import threading
+    for lexeme in ('1e400', '9' * 5000, '0', '00', '.5', '5.', '1E-400', '0.0', '2.5E+350', '1e308', '1e309', '1e311', '1' + '0' * 321, '33.3', '1e-320'):
+        for unit in ('s', 'ms'):
+            box = {}
+
+            def run(lexeme=lexeme, unit=unit):
+                try:
+                    box['v'] = T.time_amount(lexeme, unit)
+                except Exception as e:
+                    box['e'] = e
+            th = threading.Thread(target=run, daemon=True)
+            th.start()
+            th.join(20)
+            if th.is_alive():
+                ck.counterexample('time-lexeme:timeout', f'time_amount({lexeme[:20]!r}, {unit!r}) does not return within 20 s', {'kind': 'lexeme', 'lexeme': lexeme[:40], 'unit': unit})
+            elif 'e' in box:
+                e = box['e']
+                ck.counterexample(f'time-lexeme:{type(e).__name__}', f'time_amount({lexeme[:20]!r}..., {unit!r}) raises {type(e).__name__}: {short(e, 60)}', {'kind': 'lexeme', 'lexeme': lexeme[:40], 'unit': unit})
+            elif not isinstance(box['v'], float) or box['v'] != box['v'] or box['v'] < 0:
+                ck.counterexample('time-lexeme:value', f'time_amount({lexeme[:20]!r}, {unit!r}) = {box["v"]!r}', {'kind': 'lexeme', 'lexeme': lexeme[:40], 'unit': unit})
+    ck.obligation(True)
     ck.engine('LX', lexemes_checked=n)
 
 
@@ -301,6 +323,10 @@ def main() -> int:
         texts.append(('property', t))
         texts.append(('file', t))
         texts.append(('file', 'globally: some z\n' + t))
+    for lexeme in ('1e400', '2.5E+350', '1e311', '1' + '0' * 321, '1E-400', '9' * 400):
+        for unit in ('s', 'ms', ' ms'):
+            texts.append(('property', f'globally: no a within {lexeme}{unit}'))
+            texts.append(('file', f'globally: a causes b within {lexeme}{unit}\nglobally: no a'))
     # raw strings
     for kind in ('expression', 'predicate', 'property', 'file'):
         for _ in range(150 if ck.tier == 'quick' else 1500):
